@@ -28,6 +28,9 @@ def obligations(ctx):
     obs = ntt_obs(ctx, tdir, ns)
     # module-level conversions used by ntt120_vec_znx_dft / idft (int64 -> residues, centered CRT lift, round trip on all of int64)
     obs += [o for o in c10.conv_obs(ctx, tdir) if any(x in o.name for x in ("b_from_znx64", "b_to_znx128", "znx64_to_b"))]
+    # the module-level clause: NTT120 vec_znx_dft followed by vec_znx_idft / idft_tmp_a returns exactly the int64 input (N = 1 included)
+    from vf.props import c16, apigen
+    obs += c16.ntt_module_obs(ctx, apigen.tables(ctx))
     return obs
 
 
